@@ -346,16 +346,28 @@ def rule_valid_ip(ck):
         after_call = all(cfg.dominates(n, r) for n, _ in gai) and not in_handler
         is_false = isinstance(v, ast.Constant) and v.value is False
         if after_call:
-            ok = (isinstance(v, ast.Constant) and v.value is True) or (q.is_call(v, "bool") and res and q.dotted(v.args[0]) == res[0]) or (res and q.dotted(v) == res[0])
+            ve = alias_expand(f.node, v)
+            gtxt = {q.unparse(c_) for _, c_ in gai}
+
+            def is_lookup(e_):
+                return q.unparse(e_) in gtxt
+
+            if isinstance(ve, ast.Constant):
+                ok = ve.value is True
+            elif is_lookup(ve) or (q.is_call(ve, "bool") and len(ve.args) == 1 and is_lookup(ve.args[0])):
+                ok = True
+            elif isinstance(ve, ast.Compare) and len(ve.ops) == 1 and q.is_call(ve.left, "len") and is_lookup(ve.left.args[0]) and isinstance(ve.comparators[0], ast.Constant) and ve.comparators[0].value == 0:
+                ok = isinstance(ve.ops[0], (ast.Gt, ast.NotEq))
+            elif isinstance(ve, ast.UnaryOp) and isinstance(ve.op, ast.Not) and (is_lookup(ve.operand) or (q.is_call(ve.operand, "bool") and is_lookup(ve.operand.args[0]))):
+                ok = False
+            else:
+                raise AnalysisError("is_valid_ip: value returned after the lookup is not understood: %s" % q.unparse(v))
             n_true += 1
             ck.ob(rid, f, r.ast, bool(ok), "after a successful numeric lookup the answer is the lookup's result")
         else:
             ck.ob(rid, f, r.ast, is_false, "every other exit (empty/NUL input, lookup error) answers False")
     ck.floor(rid, n_true, 1, "positive exits")
-    # handlers never answer True by falling through
-    for h in [x for x in ast.walk(f.node) if isinstance(x, ast.ExceptHandler)]:
-        last = h.body[-1]
-        ck.ob(rid, f, h, isinstance(last, (ast.Return, ast.Raise)), "the %s handler ends in return/raise" % "/".join(q.handler_names(h)))
+
 
 
 def _either32(a, b):
@@ -396,8 +408,10 @@ def rule_precedence(ck):
     between = [d for d in defs if d is not last and _reaches(cfg, last, d) and _reaches(cfg, d, vt)]
 
     def hdr_get(v):
-        if isinstance(v, ast.Call) and isinstance(v.func, ast.Attribute) and v.func.attr == "get" and q.dotted(v.func.value) == hp and len(v.args) == 2 and isinstance(v.args[0], ast.Constant) and isinstance(v.args[0].value, str):
-            return v.args[0].value.lower(), v.args[1]
+        if isinstance(v, ast.Call) and isinstance(v.func, ast.Attribute) and v.func.attr == "get" and q.dotted(v.func.value) == hp and v.args and isinstance(v.args[0], ast.Constant) and isinstance(v.args[0].value, str):
+            dflt = v.args[1] if len(v.args) == 2 else q.kwarg(v, "default")
+            if dflt is not None:
+                return v.args[0].value.lower(), dflt
         return None
 
     g = hdr_get(last.ast.value) if last.kind == "stmt" and isinstance(last.ast, ast.Assign) else None
@@ -552,9 +566,9 @@ def rule_socket_address(ck):
 
 
 def run(ck):
-    from ..x_valuewalk import guard_obligations, plain_assignments
+    from ..x_valuewalk import guard_obligations, canonical
 
-    ck.repo = plain_assignments(ck.repo, ["tornado/httpserver.py", "tornado/netutil.py"])
+    ck.repo = canonical(ck.repo, ["tornado/httpserver.py", "tornado/netutil.py", "tornado/httputil.py"], keep_names=('_DEFAULT_AUTOESCAPE',))
 
     guard_obligations(ck, ['_apply_xheaders', '_unapply_xheaders', '_cleanup', '_parse_body', '_find_groups'])
     ck.rule("C32.ip-validated", "_apply_xheaders stores into self.remote_ip only the local that netutil.is_valid_ip accepted (true branch dominates, no rebinding since)")
